@@ -57,8 +57,10 @@ def run(ctx, replay=None):
             evaluated = len(cases)
             resb = ctx.run_model([[1, [[[x["off"], x["old"], Hex(x["blob"])] for x in b["calls"]], [list(h) for h in b["patches"]]]] for b in big])
             for b, (codes, _) in zip(big, resb):
-                if codes:
-                    ctx.violation("C12:add-4gib", "Add header arithmetic differs from the model for >4GiB sizes", {"cases": [b]})
+                if 7 in codes:
+                    ctx.violation("C12:spec:add-4gib", "patch headers after Add do not denote the ranges the calls asked for (>4GiB sizes): %s" % b["patches"], {"cases": [b]})
+                elif codes:
+                    ctx.violation("C12:correspondence-4gib", "Add header arithmetic differs from the model for >4GiB sizes", {"cases": [b], "broken": "correspondence C12.Run.check_headers"}, False)
         except RuntimeError as e:
             ctx.violation("C12:model-eval", str(e)[-300:], {"output": str(e)}, False)
     # ---- verdicts
